@@ -8,6 +8,7 @@ package main
 // with target types equal to, derived from, or unrelated to the original.
 
 import (
+	"os"
 	"encoding/binary"
 	"fmt"
 	"runtime"
@@ -58,7 +59,8 @@ func deriveType(c *Ctx, t *TDesc, p int) *TDesc {
 		case 0:
 			return tDynamic
 		case 1:
-			return []*TDesc{tString, tNumber, tBool}[c.G(3)]
+			// (a capsule type is a legal JSON decoding target: the payload is decoded by encoding/json)
+			return []*TDesc{tString, tNumber, tBool, {K: KCapsule, Cap: 0}, {K: KCapsule, Cap: 1}}[c.G(5)]
 		case 2:
 			switch t.K {
 			case KList, KSet:
@@ -743,8 +745,8 @@ func c17TokenDamage(c *Ctx, data []byte) []byte {
 func c17GenRecord(c *Ctx) c17Record {
 	kind := c.G(10)
 	switch {
-	case kind <= 2: // JSON value
-		t := genType(c, 3, GenOpts{})
+	case kind <= 2: // JSON value (capsule payloads are encoded by encoding/json)
+		t := genType(c, 3, GenOpts{Capsule: c.G(4) == 0})
 		d := genValue(c, t, 3, GenOpts{Null: true, MaxLen: 3, Collide: c.G(3) == 0})
 		d.stripMarksDeep()
 		enc := generalize(c, t, 5)
@@ -851,6 +853,12 @@ func c17Guard(recLen int, fn func() (cty.Value, cty.Type, error)) (o c17Outcome)
 	}()
 	o.makeTot, o.makeMax, o.site, _ = verifseam.EndRecord()
 	o.alloc = heapAllocs() - before
+	if _, seen := o.pan.(verifseam.OversizeAlloc); o.makeTot > limit && !seen {
+		// the seam refused the request by panicking, and the decoder's own recover() turned that into an
+		// ordinary error (several decoders intercept panics of the constructors they call): the request
+		// itself is what is judged, whatever became of the refusal
+		o.pan = verifseam.OversizeAlloc{Site: o.site, Requested: o.makeMax, Total: o.makeTot, Limit: limit}
+	}
 	return o
 }
 
@@ -972,8 +980,8 @@ func simC17Store(c *Ctx) {
 	var target *TDesc
 	rel := "unrelated"
 	switch {
-	case rec.enc == nil || c.G(6) == 0:
-		target = genType(c, 3, GenOpts{Dynamic: true, Optional: c.G(4) == 0})
+	case rec.enc == nil || (!control && c.G(6) == 0):
+		target = genType(c, 3, GenOpts{Dynamic: true, Optional: c.G(4) == 0, Capsule: c.G(5) == 0})
 	case control || c.G(3) == 0:
 		target, rel = rec.enc, "equal"
 		if rec.codec == "jsontype" {
@@ -1075,6 +1083,9 @@ func simC17Store(c *Ctx) {
 			c.Probe("c17.error:" + d.name)
 			if control && ((d.name == "json.Unmarshal" && rec.codec == "json") || (d.name == "msgpack.Unmarshal" && rec.codec == "msgpack") || (d.name == "json.UnmarshalType" && rec.codec == "jsontype")) {
 				c.Probe("c17.control-failed:" + d.name)
+				if os.Getenv("VERIF_DEBUG_CONTROL") != "" {
+					fmt.Fprintf(os.Stderr, "control failed: %s: %v | %s | %s\n", d.name, o.err, clip(rec.desc), target)
+				}
 			}
 			continue
 		}
